@@ -12,14 +12,17 @@ parameter kind (booleans, integers, strings, string lists, class names) and foll
 parameters from the C01 object round trip, which enters as the hypothesis record `ObjRT`.
 -/
 import Proofs.Lemmas.Ops
+import Proofs.Lemmas.OpsC01
 import Proofs.Lemmas.OpsSpec
+import Proofs.Lemmas.CimXml10
+import Proofs.Props.XmlSyntax
 import Pywbem.Model.OpsMeth
 
 set_option linter.unusedSimpArgs false
 
 namespace C04
-open Pywbem.Model Pywbem.Model.XmlText Pywbem.Model.Ops Pywbem.Proto Pywbem.Generated.OpsSig
-open Proofs.Ops Proofs.OpsSpec
+open Pywbem.Model Pywbem.Model.XmlText Pywbem.Model.XmlParse Pywbem.Model.Ops Pywbem.Proto Pywbem.Generated.OpsSig
+open Proofs.Ops Proofs.OpsSpec Proofs.OpsC01 Proofs.CimXml
 
 /-! ### the extracted marshalling table is the contract -/
 
@@ -135,7 +138,7 @@ theorem C04_string_param_roundtrip_fails_at_CR :
     wireText ['a', '\r', 'b'] ≠ some ['a', '\r', 'b'] := by
   have h : wireText ['a', '\r', 'b'] = some ['a', '\n', 'b'] := by decide
   refine ⟨?_, by decide⟩
-  simp [valueElem, E, wireTree_elem, wireKids, wireAttrs, h, joinText]
+  simp [valueElem, E, wireTree_elem, wireKids_nil, wireKids_elem_cons, wireKids_text_single, wireAttrs, h]
 
 /-- object-valued parameters: from the C01 object round trip (hypothesis record `ObjRT`) -/
 theorem C04_server_sees_object_param {C : DecCodec} {depth : Nat} {Ok : Obj → Prop} {rt : Obj → Obj}
@@ -149,7 +152,7 @@ theorem C04_objrt_classpaths (C : DecCodec) (depth : Nat) :
   constructor
   rintro o ⟨c, hc, rfl⟩
   refine ⟨E "CLASSNAME" [("NAME".toList, c)] [], ?_, ?_⟩
-  · simp [encObj, encPath, E, wireTree_elem, wireKids, wireAttrs, hc.wire]
+  · simp [encObj, encPath, E, wireTree_elem, wireKids_nil, wireKids_elem_cons, wireKids_text_single, wireAttrs, hc.wire]
   · simp [decode, decodeTop, nameIn, E, Xml.name, decPathAny, decClassName, checkNode, attrKeysOk, Xml.attr, kidsOk,
       Xml.elemKids, noText, getAttrD, pure, Except.pure, bind, Except.bind]
 
@@ -182,7 +185,7 @@ theorem C04_commutes (ns : Str) (ps : Params) (seen : List (Str × PVal)) (items
 
 /-- the IRETURNVALUE hypothesis of `C04_commutes` holds for the empty result list … -/
 theorem C04_childrt_empty (host op : Str) : ChildRT C (embAt C depth) host op (.iret []) (.iret []) :=
-  .iret [] [] ⟨[], by simp [ritemsXml, wireKids], by simp [AllElem], by
+  .iret [] [] ⟨[], by simp [ritemsXml, wireKids_nil, wireKids_elem_cons, wireKids_text_single], by simp [AllElem], by
     simp [decIReturnValue, checkNode, attrKeysOk, noText, firstElem, pure, Except.pure, bind, Except.bind]⟩
 
 /-- … and for lists of class paths (what EnumerateClassNames returns) -/
@@ -306,6 +309,193 @@ theorem C04_pull_wrong_kind_rejected (kind : PullKind) (ns : Str) (items : List 
   simp only at ho
   subst ho
   simp [rsltParams, List.foldl, rsltStep, hr, hk, perr]
+
+/-! ### the object-valued part, discharged from the C01 theorems
+
+`WireOk C S d o` (Proofs/Lemmas/OpsC01.lean) = `Sendable S o` (C01) ∧ embedded nesting ≤ d ∧ `WfTree (encObj o)`
+∧ `StableTree (encObj o)` (XmlSyntax: XML Names / XML Chars; no CR in texts, no TAB/LF/CR in attribute values, no
+empty string value).  `CodecOk C S` is C01's hypothesis record about the third-party conversions (float text,
+CIMDateTime, expat on embedded-object text). -/
+
+/-- **ObjRT from C01.**  The hypothesis record of the object-valued theorems above holds for every wire-stable
+    sendable object, with `rt` = the DSP0201 defaults of C01 (`wdObj`) -/
+theorem C04_objrt_from_C01 (C : DecCodec) (S : Spec) (hC : CodecOk C S) (d : Nat) :
+    ObjRT C d (WireOk C S d) (wdObj C.toCodec) := objrt_from_C01 C S hC d
+
+/-- a parameter the caller may pass: a scalar, or a CIM object in the shape `_iparam_*` gives it (instance name,
+    instance for CreateInstance / ModifyInstance, class, qualifier declaration) that C01 speaks about -/
+inductive ParamOk (C : DecCodec) (S : Spec) (d : Nat) (sig : List Row) (op : Str) : Str × PVal → Prop
+  | scalar (p : Str × PVal) : ScalarParam sig op p → ParamOk C S d sig op p
+  | obj (n : Str) (o : Obj) : StableAttr n → IsParamObj o → WireOk C S d o → ParamOk C S d sig op (n, .obj o)
+
+/-- what the server sees of a parameter: scalars unchanged, objects with the DSP0201 defaults filled in -/
+def seenOf (C : Codec) : Str × PVal → Str × PVal
+  | (n, .obj o) => (n, .obj (wdObj C o))
+  | p => p
+
+/-- **server_sees_what_client_said, objects included** (no hypothesis record left): for every parameter list
+    of scalars and C01-sendable wire-stable objects the server reads the operation name, the namespace and each
+    non-None parameter — scalars equal, objects equal up to the DSP0201 defaults -/
+theorem C04_server_sees_objects (C : DecCodec) (S : Spec) (hC : CodecOk C S) (depth : Nat) (sig : List Row)
+    (op ns : Str) (ps : Params) (hop : StableAttr op) (hns : StableAttr ns)
+    (h : ∀ p ∈ dropNone ps, ParamOk C S depth sig op p) :
+    ∃ t, wireTree (requestXml C.toCodec op ns ps) = some t ∧
+      serverSees C depth sig t =
+        .ok ("1001".toList, { op := op, ns := ns, params := (dropNone ps).map (seenOf C.toCodec) }) := by
+  apply serverSees_request C depth sig op ns ps _ hop hns
+  apply Zip.map
+  intro p hp
+  cases h p hp with
+  | scalar p hsc =>
+    have hrt := C04_scalar_param_roundtrip C (embAt C depth) hsc
+    cases hsc <;> exact hrt
+  | obj n o hn hpo hw => exact ParamRT.obj (C04_objrt_from_C01 C S hC depth) _ hn hw hpo
+
+section
+variable (C : DecCodec) (S : Spec) (hC : CodecOk C S) (depth : Nat) (sig : List Row) (dflt host : Str)
+  (Srv : Seen → Result) (row : Row) (c : Call)
+
+include hC in
+/-- **C04_commutes for object results** (no hypothesis record left).  The server behaviour answers with a list
+    of result items that travel as plain elements (instances as INSTANCE / VALUE.NAMEDINSTANCE /
+    VALUE.INSTANCEWITHPATH, instance names / paths, class names, classes, qualifier declarations), all of one
+    element kind, each C01-sendable and wire-stable: the caller gets the operation's post-processing of exactly
+    those objects with the DSP0201 defaults — GetInstance, EnumerateInstances, EnumerateInstanceNames,
+    CreateInstance, GetClass, EnumerateClasses, EnumerateClassNames, GetQualifier, EnumerateQualifiers. -/
+theorem C04_commutes_objects (ns : Str) (ps : Params) (l : List RItem) (view : RItem → Obj) (nm : Str)
+    (hprep : prepare dflt row c = .ok (ns, ps)) (hop : StableAttr row.op.toList) (hns : StableAttr ns)
+    (hps : ∀ p ∈ dropNone ps, ParamOk C S depth sig row.op.toList p)
+    (hret : row.hasReturn = true)
+    (hS : Srv { op := row.op.toList, ns := ns, params := (dropNone ps).map (seenOf C.toCodec) } = .ok [.iret l])
+    (hl : ∀ x ∈ l, plainObjOf host row.op.toList x = some (view x) ∧ WireOk C S depth (view x) ∧
+      (encObj C.toCodec (view x)).name = nm) :
+    exchange C depth sig dflt host Srv row c =
+      clientPost row ns host ps (some [.iret (l.map (fun x => CItem.plain (wdObj C.toCodec (view x))))]) := by
+  have hzip : Zip (fun p q => ParamRT C (embAt C depth) (kindOf sig row.op.toList q.1) p q) (dropNone ps)
+      ((dropNone ps).map (seenOf C.toCodec)) := by
+    apply Zip.map
+    intro p hp
+    cases hps p hp with
+    | scalar p hsc =>
+      have hrt := C04_scalar_param_roundtrip C (embAt C depth) hsc
+      cases hsc <;> exact hrt
+    | obj n o hn hpo hw => exact ParamRT.obj (C04_objrt_from_C01 C S hC depth) _ hn hw hpo
+  have hI := iret_plain C S hC depth host row.op.toList l view nm hl
+  rw [C04_commutes C depth sig dflt host Srv row c ns ps _ [.iret l] _ hprep hop hns hzip hS (.cons hI .nil)]
+  simp [imethodResult, RspChild.isError, RspChild.isIret, hret, pure, Except.pure]
+
+include hC in
+/-- **GetInstance end to end**: whatever instance the server behaviour returns for the request it saw, the
+    caller gets that instance (DSP0201 defaults filled in) with the InstanceName of the call as its path,
+    completed with the effective namespace -/
+theorem C04_getinstance_commutes (ns n : Str) (p : Path) (rest : Params) (i : Inst)
+    (hrow : row.post = .getInstance) (hret : row.hasReturn = true) (hform : instForm row.op.toList = .instance)
+    (hprep : prepare dflt row c = .ok (ns, (n, some (.obj (.path p))) :: rest))
+    (hop : StableAttr row.op.toList) (hns : StableAttr ns)
+    (hps : ∀ q ∈ dropNone ((n, some (.obj (.path p))) :: rest), ParamOk C S depth sig row.op.toList q)
+    (hS : Srv { op := row.op.toList, ns := ns,
+                params := (dropNone ((n, some (.obj (.path p))) :: rest)).map (seenOf C.toCodec) } = .ok [.iret [.inst i]])
+    (hi : WireOk C S depth (.inst (match i with | .mk cl _ pr q => .mk cl none pr q))) :
+    exchange C depth sig dflt host Srv row c =
+      .ok (.one (.obj (.inst (match wdInstNoPath C.toCodec i with
+        | .mk cl _ pr q => .mk cl (some (Path.setNs ns p)) pr q)))) := by
+  obtain ⟨cl, pth, pr, q⟩ := i
+  have hl : ∀ x ∈ [RItem.inst (.mk cl pth pr q)], plainObjOf host row.op.toList x = some ((fun _ => Obj.inst (.mk cl none pr q)) x) ∧
+      WireOk C S depth ((fun _ => Obj.inst (.mk cl none pr q)) x) ∧
+      (encObj C.toCodec ((fun _ => Obj.inst (.mk cl none pr q)) x)).name = "INSTANCE".toList := by
+    intro x hx
+    simp only [List.mem_singleton] at hx
+    subst hx
+    refine ⟨by simp [plainObjOf, hform], hi, by simp [encObj, encInst, E, Xml.name]⟩
+  rw [C04_commutes_objects C S hC depth sig dflt host Srv row c ns _ _ _ _ hprep hop hns hps hret hS hl]
+  simp only [List.map_cons, List.map_nil, wdObj, wdInst, wdInstNoPath]
+  exact C04_getinstance_path_completion row hrow ns host n cl p rest none _ _ [] []
+
+end
+
+/-- association results (Associators / References of an instance): VALUE.OBJECTWITHPATH items whose paths carry
+    host and namespace arrive as instances with path, with the DSP0201 defaults -/
+theorem C04_childrt_assoc_instances (C : DecCodec) (S : Spec) (hC : CodecOk C S) (d : Nat) (host op : Str)
+    (l : List (Path × Inst))
+    (h : ∀ x ∈ l, FullInstPath x.1 ∧ SendablePath S x.1 ∧ SendableInstBody S x.2 ∧ depthInst x.2 ≤ d ∧
+      WfTree (E "VALUE.OBJECTWITHPATH" [] [encPath C.toCodec x.1, encInstElem C.toCodec x.2]) ∧
+      StableTree (E "VALUE.OBJECTWITHPATH" [] [encPath C.toCodec x.1, encInstElem C.toCodec x.2])) :
+    ChildRT C (embAt C d) host op
+      (.iret (l.map (fun x => RItem.opInst (Inst.setPath x.1 x.2))))
+      (.iret (l.map (fun x => CItem.tagged "VALUE.OBJECTWITHPATH".toList
+        (.obj (.inst (Inst.setPath (wdPath C.toCodec x.1) (wdInstNoPath C.toCodec x.2))))))) := by
+  have key : ∀ x ∈ l, ritemXml C.toCodec host op (RItem.opInst (Inst.setPath x.1 x.2)) =
+      E "VALUE.OBJECTWITHPATH" [] [encPath C.toCodec x.1, encInstElem C.toCodec x.2] := by
+    intro x hx
+    obtain ⟨hf, _⟩ := h x hx
+    obtain ⟨p, cl, pp, pr, q⟩ := x
+    match p, hf with
+    | .inst c' (some hh) (some n) ks, _ =>
+      simp [ritemXml, Inst.setPath, Inst.pathD, Path.withHostD, encInstElem]
+  have := iret_of_items C d host op (l.map (fun x => RItem.opInst (Inst.setPath x.1 x.2)))
+    (fun r => match r with
+      | .opInst (.mk cl (some p) pr q) => CItem.tagged "VALUE.OBJECTWITHPATH".toList
+          (.obj (.inst (Inst.setPath (wdPath C.toCodec p) (wdInstNoPath C.toCodec (.mk cl none pr q)))))
+      | _ => CItem.other) "VALUE.OBJECTWITHPATH".toList (by
+      intro r hr
+      simp only [List.mem_map] at hr
+      obtain ⟨x, hx, rfl⟩ := hr
+      obtain ⟨hf, hsp, hsi, hd, hw, hst⟩ := h x hx
+      rw [key x hx]
+      obtain ⟨p, cl, pp, pr, q⟩ := x
+      refine ⟨rfl, rfl, hw, hst, ?_⟩
+      have := decRetItem_opInst C S hC d p (.mk cl pp pr q) hf hsp hsi hd
+      simpa [Inst.setPath, wdInstNoPath] using this)
+  rw [List.map_map] at this
+  have e : l.map ((fun r => match r with
+      | RItem.opInst (.mk cl (some p) pr q) => CItem.tagged "VALUE.OBJECTWITHPATH".toList
+          (.obj (.inst (Inst.setPath (wdPath C.toCodec p) (wdInstNoPath C.toCodec (.mk cl none pr q)))))
+      | _ => CItem.other) ∘ fun x => RItem.opInst (Inst.setPath x.1 x.2)) =
+      l.map (fun x => CItem.tagged "VALUE.OBJECTWITHPATH".toList
+        (.obj (.inst (Inst.setPath (wdPath C.toCodec x.1) (wdInstNoPath C.toCodec x.2))))) := by
+    apply List.map_congr_left
+    intro x _
+    obtain ⟨p, cl, pp, pr, q⟩ := x
+    rfl
+  rw [e] at this
+  exact this
+
+/-- non-vacuity of `WireOk` / `C04_objrt_from_C01` / `ParamOk.obj`: an instance name with a string key, for the toy
+    codec that satisfies `CodecOk` (Proofs/Lemmas/CimXml10.lean) -/
+def exampleName : Obj := .path (.inst "CIM_Foo".toList none none [.mk (some "Name".toList) (.str "a&b <c>".toList)])
+
+example : WireOk toyCodec toySpec 0 exampleName := by
+  refine ⟨?_, by decide, by decide, by decide⟩
+  simp [exampleName, Sendable, SendablePath, SendableKeys, SendableKey, AtomOk, NoDupKeyNames, Key.name]
+
+example : IsParamObj exampleName := trivial
+
+example : ∃ t, wireTree (encObj toyCodec.toCodec exampleName) = some t ∧
+    decode toyCodec 0 t = .ok (wdObj toyCodec.toCodec exampleName) :=
+  (C04_objrt_from_C01 toyCodec toySpec toyCodecOk 0).roundtrip exampleName (by
+    refine ⟨?_, by decide, by decide, by decide⟩
+    simp [exampleName, Sendable, SendablePath, SendableKeys, SendableKey, AtomOk, NoDupKeyNames, Key.name])
+
+/-! ### the tree-level wire is the parser applied to the bytes (XmlSyntax discharged) -/
+
+/-- the two `wireTree` steps of `exchange` are not a modelling hypothesis any more: for a request / response
+    document whose names are XML Names and whose characters are XML Chars (`WfTree`), the concrete parser model
+    `par` (expat + pywbem's SAX handler, Pywbem/Model/XmlParse.lean) applied to the bytes pywbem sends — the XML
+    declaration followed by `toxml()` — returns exactly `wireTree` of the document -/
+theorem C04_wire_is_parser_on_bytes (C : Codec) (op ns host msgid : Str) (ps : Params) (res : Result)
+    (hq : WfTree (requestXml C op ns ps)) (hr : WfTree (responseXml C host op msgid res)) :
+    par ("<?xml version=\"1.0\" encoding=\"utf-8\" ?>\n".toList ++ Xml.ser (requestXml C op ns ps)) =
+      wireTree (requestXml C op ns ps) ∧
+    par ("<?xml version=\"1.0\" encoding=\"utf-8\" ?>\n".toList ++ Xml.ser (responseXml C host op msgid res)) =
+      wireTree (responseXml C host op msgid res) := by
+  have e1 : (requestXml C op ns ps).isElem = true := rfl
+  have e2 : (responseXml C host op msgid res).isElem = true := by cases res <;> rfl
+  exact ⟨(XmlSyntax.XmlSyntax_decl _ hq e1).trans (XmlSyntax.XmlSyntax_par_ser _ hq e1),
+         (XmlSyntax.XmlSyntax_decl _ hr e2).trans (XmlSyntax.XmlSyntax_par_ser _ hr e2)⟩
+
+/-- non-vacuity: a small request document is well-formed -/
+example : WfTree (requestXml toyCodec.toCodec "GetClass".toList "root".toList [("LocalOnly".toList, some (.bool false))]) := by
+  decide
 
 /-! ### InvokeMethod: the request (Model/OpsMeth.lean) -/
 
